@@ -147,3 +147,18 @@ MUTANTS["C18"] = [
     ("tol-lower-returns-upper", [(PU, "            return lower_bound, True  # Truncate & throw error", "            return upper_bound, True  # Truncate & throw error")]),
     ("tol-relative", [(PU, "        if value > (upper_bound + tolerance):", "        if value > (upper_bound + tolerance) * (1 + 1e-12):")]),
 ]
+
+TU = "plotink/text_utils.py"
+MUTANTS["C20"] = [
+    ("amp-replaced-last", [(TU, "    new_text = input_text.replace('&','&amp;')\n    new_text = new_text.replace('<','&lt;')", "    new_text = input_text.replace('<','&lt;')\n    new_text = new_text.replace('&','&amp;')")]),
+    ("apos-not-replaced", [(TU, "    new_text = new_text.replace(\"'\",'&apos;')\n", "")]),
+    ("quot-as-apos", [(TU, "    new_text = new_text.replace('\"','&quot;')", "    new_text = new_text.replace('\"','&apos;')")]),
+    ("round-to-int", [(TU, "    duration_rounded = int(round(duration))", "    duration_rounded = int(duration)")]),
+    ("lt60-before-rounding", [(TU, "    duration_rounded = int(round(duration))\n    if duration_rounded < 60:", "    duration_rounded = int(round(duration))\n    if duration < 60:")]),
+    ("ms-divisor-100", [(TU, "        duration = duration / 1000.0", "        duration = duration / 100.0")]),
+    ("ten-second-switch-le", [(TU, "    if duration < 10:", "    if duration <= 10:")]),
+    ("hours-threshold-3599", [(TU, "    if duration_rounded < 3600:", "    if duration_rounded <= 3600:")]),
+    ("minutes-not-reduced", [(TU, "    h_elapsed, m_elapsed = divmod(m_elapsed, 60)", "    h_elapsed = m_elapsed // 60")]),
+    ("ms-integer-division", [(TU, "        duration = duration / 1000.0", "        duration = duration // 1000")]),
+    ("strip-input", [(TU, "    new_text = input_text.replace('&','&amp;')", "    new_text = input_text.strip().replace('&','&amp;')")]),
+]
